@@ -1644,7 +1644,15 @@ def run_slots(ctx: common.Ctx, props, n_docs: int, n_ops: int):
                 # the harness could not even observe the call (tree unusable): stop this document
                 ctx.dist('harness_skip:' + type(e).__name__)
                 # the tree or its store cannot even be read around this call: the previous call broke the document
-                if len(script) > 1:
+                unreadable = None
+                try:
+                    gen_docs.print_model(root)
+                    for _p, _n in walk(root):
+                        node_tokens(_n)
+                except Exception as e2:
+                    unreadable = e2
+                if len(script) > 1 and unreadable is not None:
+                    e = unreadable
                     sig = SIG_FRAME if 'C03' in props else SIG_ATOMIC
                     ctx.monitor_failure(sig, f'the document cannot be read any more after {script[-2]["op"]} on {script[-2]["attr"]} '
                                              f'({type(e).__name__})', {'text': text, 'script': list(script), 'lf': lf})
